@@ -61,7 +61,7 @@ func tierDeadline(tier Tier) time.Duration {
 	// wall-clock caps are a safety net, far above what an idle machine needs (a capped profile ends
 	// with exhaustive:false and exit 0)
 	if tier.Thorough() {
-		return 20 * time.Minute
+		return 10 * time.Minute
 	}
 	return 5 * time.Minute
 }
